@@ -213,6 +213,10 @@ def obligations(tier, seed):
                 spans.append((i, C_.pm.match[i] + 1))
         spans = spans[: (QUICK_AROUND.get((p["schema"], p["doc"]), 0) if tier == "quick" else
                          THOROUGH_AROUND.get((p["schema"], p["doc"]), 0))]
+        if spans:
+            for ri in [r for r in p.get("ras", list(range(20))) if r < len(ops.payloads(C_).ras)][: (3 if tier == "quick" else 20)]:
+                obs.append({"name": "around/%s/outer=doc/r%d" % (tag, ri), "fn": "ob_around",
+                            "P": dict(p, mode="outerfixed", a=0, b=size, ras=[ri]), "timeout": T})
         nras = len(ops.payloads(C_).ras)
         rlist = p.get("ras", list(range(nras)))
         for (o, c) in spans:
